@@ -2,7 +2,9 @@ package gvc
 
 import (
 	"fmt"
+	"go/token"
 	"go/types"
+	"sort"
 	"strings"
 
 	"golang.org/x/tools/go/ssa"
@@ -59,6 +61,11 @@ func (x *Exec) call(st *State, fr *Frame, at ssa.Instruction, cc *ssa.CallCommon
 	}
 	if cc.IsInvoke() {
 		allArgs := append([]Val{fnv}, args...)
+		if v, ok := x.callPure(st, name, allArgs, cc.Signature().Results()); ok {
+			x.checkGuards(st, fr, at, name, allArgs)
+			bind(v)
+			return false
+		}
 		return x.callAbstract(st, fr, at, name, nil, allArgs, cc.Signature().Results(), bind, cc)
 	}
 	if b, ok := cc.Value.(*ssa.Builtin); ok {
@@ -87,6 +94,10 @@ func (x *Exec) call(st *State, fr *Frame, at ssa.Instruction, cc *ssa.CallCommon
 func (x *Exec) callFunction(st *State, fr *Frame, at ssa.Instruction, name string, fn *ssa.Function, bindings []Val, args []Val, bind func(Val), cc *ssa.CallCommon) bool {
 	// guards (F6) of the function under contract
 	x.checkGuards(st, fr, at, name, args)
+	if v, ok := x.callPure(st, name, args, fn.Signature.Results()); ok {
+		bind(v)
+		return false
+	}
 	// 1. native model
 	if nat, ok := natives[name]; ok {
 		if v, handled := nat(x, st, fr, at, args); handled {
@@ -472,7 +483,16 @@ func (x *Exec) checkGuards(st *State, fr *Frame, at ssa.Instruction, callee stri
 	}
 	for _, cl := range x.TopC.Of("guard") {
 		pat := cl.Args[0]
-		if !matchCallee(pat, callee) {
+		if i := strings.LastIndex(pat, "#"); i > 0 {
+			// "callee#k": only the k-th call site (source order) of that callee in the calling function
+			var k int
+			if _, err := fmt.Sscan(pat[i+1:], &k); err != nil || !matchCallee(pat[:i], callee) {
+				continue
+			}
+			if x.siteOrdinal(fr.fn, at, pat[:i]) != k {
+				continue
+			}
+		} else if !matchCallee(pat, callee) {
 			continue
 		}
 		top := st.frames[0]
@@ -504,6 +524,9 @@ func (x *Exec) checkGuards(st *State, fr *Frame, at ssa.Instruction, callee stri
 func matchCallee(pat, callee string) bool {
 	if pat == callee {
 		return true
+	}
+	if i := strings.Index(callee, "["); i > 0 && strings.HasSuffix(callee, "]") && !strings.Contains(pat, "[") {
+		callee = callee[:i] // generic instance: match by the generic name
 	}
 	if strings.HasPrefix(pat, "*") {
 		return strings.HasSuffix(callee, pat[1:])
@@ -826,7 +849,10 @@ func (x *Exec) appendOp(st *State, fr *Frame, at ssa.Instruction, args []Val) Va
 	k := concreteInt(addLen)
 	if add.T.Sort == SSlice && k >= 0 && k <= 8 {
 		// new row: shifted copy of old row (offset normalised to 0 via arr.shift) then stores
-		x.D.DeclareFun("arr.shift."+mangle(sort), []string{ArraySort(SInt, sort), SInt}, ArraySort(SInt, sort))
+		if shf := "arr.shift." + mangle(sort); !x.D.HasFun(shf) {
+			x.D.DeclareFun(shf, []string{ArraySort(SInt, sort), SInt}, ArraySort(SInt, sort))
+			x.D.Axiom(fmt.Sprintf("(forall ((a %[1]s) (o Int) (i Int)) (! (= (select (%[2]s a o) i) (select a (+ o i))) :pattern ((select (%[2]s a o) i))))", ArraySort(SInt, sort), shf))
+		}
 		row := App(ArraySort(SInt, sort), "arr.shift."+mangle(sort), oldRow, sOff)
 		// arr.shift(a, off)[i] == a[off+i] for the indices we care about is instantiated lazily by spec
 		// evaluation (see selectElem); here we keep row symbolic and add the new elements
@@ -917,4 +943,244 @@ func (x *Exec) copyOp(st *State, args []Val) Val {
 		st.assume(Term{fmt.Sprintf("(forall ((i Int)) (! (= (select %[1]s i) (ite (and (<= %[2]s i) (< i %[3]s)) (select %[4]s %[5]s) (select %[6]s i))) :pattern ((select %[1]s i))))", newRow.S, dOff.S, hiB.S, x.define(st, "cpsrc", srcRow).S, srcIdx, x.define(st, "cpdst", dstRow).S), SBool})
 	}
 	return Val{T: nT, Typ: types.Typ[types.Int]}
+}
+
+// ---------- pure callees (contract flag `pure <callee>, ...`) ----------
+//
+// A callee listed as pure by the contract of the function under verification is modelled as an
+// uninterpreted function of its argument terms: two calls with equal arguments return equal
+// results, and the call has no effect. This is an ASSUMPTION (listed in the trusted base): it is
+// meant for generated protobuf getters and similar accessors reached through an interface, where
+// the executor cannot see the body. Specs can refer to the same function by its method name.
+
+type pureFun struct {
+	smt     string
+	args    []string
+	results []string
+	rtypes  []types.Type
+}
+
+func (x *Exec) purePattern(name string) (string, bool) {
+	if x.TopC == nil {
+		return "", false
+	}
+	for _, pat := range flagList(x.TopC, "pure") {
+		if matchCallee(pat, name) {
+			return pat, true
+		}
+	}
+	return "", false
+}
+
+// lookupSig resolves "(pkg.Type).Method" or "pkg.Func" to a signature using type information only.
+func (x *Exec) lookupSig(name string) *types.Signature {
+	findPkg := func(path string) *types.Package {
+		for _, p := range x.P.SSA.AllPackages() {
+			if p.Pkg.Path() == path || p.Pkg.Path() == ModPath+"/"+path {
+				return p.Pkg
+			}
+		}
+		return nil
+	}
+	if k := strings.Index(name, ".("); k > 0 && !strings.HasPrefix(name, "(") {
+		// static method spelling "pkg.(*T).M" -> "(pkg.T).M"
+		rest := name[k+2:]
+		if e := strings.Index(rest, ")."); e > 0 {
+			name = "(" + name[:k] + "." + strings.TrimPrefix(rest[:e], "*") + ")." + rest[e+2:]
+		}
+	}
+	if strings.HasPrefix(name, "(") {
+		i := strings.Index(name, ").")
+		if i < 0 {
+			return nil
+		}
+		tn := strings.TrimPrefix(name[1:i], "*")
+		meth := name[i+2:]
+		j := strings.LastIndex(tn, ".")
+		if j < 0 {
+			return nil
+		}
+		pkg := findPkg(tn[:j])
+		if pkg == nil {
+			return nil
+		}
+		obj := pkg.Scope().Lookup(tn[j+1:])
+		if obj == nil {
+			return nil
+		}
+		for _, t := range []types.Type{obj.Type(), types.NewPointer(obj.Type())} {
+			o, _, _ := types.LookupFieldOrMethod(t, true, pkg, meth)
+			if f, ok := o.(*types.Func); ok {
+				return f.Type().(*types.Signature)
+			}
+		}
+		return nil
+	}
+	j := strings.LastIndex(name, ".")
+	if j < 0 {
+		return nil
+	}
+	pkg := findPkg(name[:j])
+	if pkg == nil {
+		return nil
+	}
+	if f, ok := pkg.Scope().Lookup(name[j+1:]).(*types.Func); ok {
+		return f.Type().(*types.Signature)
+	}
+	return nil
+}
+
+func (x *Exec) pureDecl(key string, argSorts []string, results *types.Tuple) *pureFun {
+	if x.pureFuns == nil {
+		x.pureFuns = map[string]*pureFun{}
+	}
+	if pf, ok := x.pureFuns[key]; ok {
+		return pf
+	}
+	pf := &pureFun{smt: "pf_" + mangle(key), args: argSorts}
+	if len(pf.smt) > 90 {
+		pf.smt = pf.smt[:70] + shortHash(key)
+	}
+	for i := 0; i < results.Len(); i++ {
+		rs := x.S.SortOf(results.At(i).Type())
+		pf.results = append(pf.results, rs)
+		pf.rtypes = append(pf.rtypes, results.At(i).Type())
+		x.D.DeclareFun(fmt.Sprintf("%s.%d", pf.smt, i), argSorts, rs)
+	}
+	x.pureFuns[key] = pf
+	x.Trusted["assumed pure: "+key] = 0
+	return pf
+}
+
+func (x *Exec) pureApply(st *State, pf *pureFun, args []Val) Val {
+	var ts []Term
+	for _, a := range args {
+		ts = append(ts, a.T)
+	}
+	var res []Val
+	for i := range pf.results {
+		v := Val{T: App(pf.results[i], fmt.Sprintf("%s.%d", pf.smt, i), ts...), Typ: pf.rtypes[i]}
+		if st != nil {
+			v.T = x.define(st, "pure", v.T)
+			x.assumeTyped(st, v)
+		}
+		res = append(res, v)
+	}
+	switch len(res) {
+	case 0:
+		return Val{T: Term{"unit", SUnit}}
+	case 1:
+		return res[0]
+	}
+	return Val{T: Term{"unit", SUnit}, Tup: res}
+}
+
+// callPure handles a call to a callee flagged pure; ok=false when the callee is not flagged.
+func (x *Exec) callPure(st *State, name string, args []Val, results *types.Tuple) (Val, bool) {
+	pat, ok := x.purePattern(name)
+	if !ok || results == nil || results.Len() == 0 {
+		return Val{}, false
+	}
+	var sorts []string
+	for _, a := range args {
+		sorts = append(sorts, a.T.Sort)
+	}
+	pf := x.pureDecl(pat, sorts, results)
+	if len(pf.args) != len(args) {
+		return Val{}, false
+	}
+	for i := range args {
+		if pf.args[i] != args[i].T.Sort {
+			return Val{}, false
+		}
+	}
+	x.Trusted["assumed pure: "+pat]++
+	return x.pureApply(st, pf, args), true
+}
+
+// specPure resolves a spec-level call `Method(args)` against the pure list of the contract.
+func (x *Exec) specPure(st *State, fun string, args []Val) (Val, bool) {
+	if x.TopC == nil {
+		return Val{}, false
+	}
+	for _, pat := range flagList(x.TopC, "pure") {
+		if methodOf(pat) != fun {
+			continue
+		}
+		sig := x.lookupSig(pat)
+		if sig == nil {
+			continue
+		}
+		var sorts []string
+		for _, a := range args {
+			sorts = append(sorts, a.T.Sort)
+		}
+		pf := x.pureDecl(pat, sorts, sig.Results())
+		if len(pf.args) != len(args) {
+			continue
+		}
+		okSorts := true
+		for i := range args {
+			if pf.args[i] != args[i].T.Sort {
+				okSorts = false
+			}
+		}
+		if !okSorts {
+			continue
+		}
+		return x.pureApply(nil, pf, args), true
+	}
+	return Val{}, false
+}
+
+func staticCalleeName(cc *ssa.CallCommon) string {
+	if cc.IsInvoke() {
+		return "(" + shortPkgType(cc.Value.Type()) + ")." + cc.Method.Name()
+	}
+	if f := cc.StaticCallee(); f != nil {
+		return CanonName(f)
+	}
+	return ""
+}
+
+// siteOrdinal: index of call instruction `at` among the call sites in fn (source order) whose static
+// callee matches pat; -1 when `at` is not such a site.
+func (x *Exec) siteOrdinal(fn *ssa.Function, at ssa.Instruction, pat string) int {
+	type site struct {
+		in  ssa.Instruction
+		pos token.Pos
+		seq int
+	}
+	var sites []site
+	n := 0
+	for _, b := range fn.Blocks {
+		for _, in := range b.Instrs {
+			n++
+			var cc *ssa.CallCommon
+			switch c := in.(type) {
+			case *ssa.Call:
+				cc = c.Common()
+			case *ssa.Defer:
+				cc = c.Common()
+			}
+			if cc == nil {
+				continue
+			}
+			if name := staticCalleeName(cc); name != "" && matchCallee(pat, name) {
+				sites = append(sites, site{in, in.Pos(), n})
+			}
+		}
+	}
+	sort.SliceStable(sites, func(i, j int) bool {
+		if sites[i].pos != sites[j].pos {
+			return sites[i].pos < sites[j].pos
+		}
+		return sites[i].seq < sites[j].seq
+	})
+	for i, s := range sites {
+		if s.in == at {
+			return i
+		}
+	}
+	return -1
 }
